@@ -3,6 +3,8 @@ CONSTANTS N = 1
   Ports <- MCPorts
   MissLens <- MCMissLens
   MaxLens <- MCMaxLens
+  ListsPO <- NoLists
+  ListsFM <- NoLists
   D = 3
 INIT Init
 NEXT Next
